@@ -41,6 +41,7 @@ def run(ctx: RuleContext):
     ctx.sub(check_slice_agreement, ctx)
     ctx.sub(check_bind_if_absent, ctx)
     ctx.sub(check_rank_test, ctx)
+    ctx.sub(check_no_accept_before_shape_check, ctx)
     # C01.7: the "only look at the array type" mode (set while a PyTree is being flattened) makes every array
     # check answer after the array-type test alone; it must never outlive the flatten that set it -- otherwise
     # every later check on the thread is true regardless of dtype and shape (flag typestate of C12.1 / C08.7,
@@ -634,3 +635,61 @@ def check_rank_test(ctx):
                     f"{'rejected' if tab[(s_, d_)] == rej_truth else 'not rejected'})")
         else:
             ctx.ok("C01.6", f.qualname, f"{label}: `{norm(node.ast)}` rejects exactly the rank pairs it must (49 pairs)")
+
+
+# ------------------------------------------------------------------------ C01.8
+def check_no_accept_before_shape_check(ctx):
+    """`__instancecheck_str__` answers "" (= matches) only after `_check_shape` has looked at the shape -- except on the two
+    documented short cuts: a transparent annotation (`_skip_instancecheck`) and the flatten mode.  Any other accepting
+    return that the shape check does not dominate is a fast path on which rank / sizes / bindings are never compared
+    (`Float[Array, "_ ..."]` accepting a scalar)."""
+    from ..roles import node_calls, roles_for
+
+    m = ctx.model
+    r = roles_for(m)
+    f = m.func("_array_types._MetaAbstractArray.__instancecheck_str__")
+    ctx.saw(f)
+    g = NoReturn(m).cfg(f)
+    dom = g.dominators()
+    shape_nodes = [n for n in g.live_nodes() if any(m.is_call_to(f, c, "_array_types._MetaAbstractArray._check_shape") or
+                                                    (isinstance(c.func, ast.Attribute) and c.func.attr == "_check_shape") for c in node_calls(n))]
+    need(shape_nodes, "C01.8: the call of _check_shape was not found in __instancecheck_str__")
+    n_acc = 0
+    for n in g.live_nodes():
+        if n.kind != "return" or not (isinstance(n.ast.value, ast.Constant) and n.ast.value.value == ""):
+            continue
+        if any(sn.id in dom[n.id] for sn in shape_nodes):
+            continue
+        n_acc += 1
+        # the test that guards this early acceptance: walk back from the return through straight-line predecessors
+        guard = None
+        cur = n
+        for _hop in range(6):
+            preds = [p_ for _, p_ in cur.pred if p_.id in g.reachable]
+            if len(preds) != 1:
+                break
+            cur = preds[0]
+            if cur.kind == "test":
+                guard = cur
+                break
+        gt = norm(guard.ast) if guard is not None else "<unconditional>"
+        ok_guard = guard is not None and (gt.endswith("._skip_instancecheck") or any(r.role_of_call(f, c) == "get_treeflatten_memo" for c in node_calls(guard)))
+        if not ok_guard and guard is not None and node_calls(guard):
+            # a getter of the flatten-mode flag under another name
+            from ..flagstate import discover_flags
+            from . import c05
+
+            stack_tl, _, _ = c05.locate_stack(r)
+            getters = {x.qualname for fl in discover_flags(m, r, stack_tl) if not fl.guarded_setters and not fl.raising_getters for x in fl.getters}
+            tg = [m.resolve_call(f, c) for c in node_calls(guard)]
+            if any(t.kind == "func" and t.target.qualname in getters for t in tg):
+                ok_guard = True
+            elif any(t.kind != "func" or t.target.module.short == "_storage" for t in tg):
+                raise AnalysisError(f"C01.8: the early acceptance under `{gt}` is decided by a call the rule cannot classify")
+        if ok_guard:
+            ctx.ok("C01.8", f.qualname, f"early acceptance under `{gt}` (documented short cut)")
+        else:
+            ctx.bad("C01.8", f, n.ast, f"the check answers 'matches' under `{gt}` without the shape having been compared (the shape check does not dominate this return): "
+                    "rank, sizes and bindings are skipped on that path", construct=f"accept before _check_shape under {gt}")
+    ctx.counters["early_acceptances"] = n_acc
+    ctx.floor("C01.8", "early_acceptances", 2)
